@@ -144,6 +144,9 @@ type DiskImage struct {
 	// number of Update calls folded into the image (part of the user state)
 	SyncedC uint64
 	WorkC   uint64
+	// Off, when set, reports that the host has lost power: nothing becomes durable any
+	// more (a Sync of the dying process returns but leaves the synced image alone)
+	Off func() bool
 }
 
 func NewDiskImage() *DiskImage {
@@ -655,9 +658,19 @@ func (s *OnDiskKV) NALookup(q []byte) ([]byte, error)        { return s.c.naLook
 func (s *OnDiskKV) Sync() error {
 	s.c.enterExclusive("Sync", &s.c.inSync)
 	defer atomic.AddInt32(&s.c.inSync, -1)
+	if s.c.recovered {
+		// the Sync that makes a just recovered image durable (node.recover syncs before
+		// it shrinks the snapshot the image came from)
+		s.c.recovered = false
+		s.c.rec.hook("sm-sync-after-recover-enter", s.c.name)
+		defer s.c.rec.hook("sm-sync-after-recover-exit", s.c.name)
+	}
 	d := s.c.disk
 	d.mu.Lock()
 	defer d.mu.Unlock()
+	if d.Off != nil && d.Off() {
+		return nil
+	}
 	d.Synced = map[string]string{}
 	for k, v := range d.Work {
 		d.Synced[k] = v
